@@ -1,5 +1,5 @@
 import QuriVerif.Props.ReflectLift
-import QuriVerif.Proof.BasisSound
+import QuriVerif.Proof.PauliSound
 /-
   C16 over complex operators, for ALL register sizes: the Pauli bookkeeping of
   `ComputationalBasisState` (`_add_single_pauli`, `_add_pauli`, `with_gates_applied` on Pauli-kind gates;
@@ -112,5 +112,31 @@ example (φ : ℕ → ℝ) (r : ℕ) (hr : r < 2 ^ 5) :
       · exact sameOp_single_complex φ 5 _ 0 (by omega) rfl rfl (Or.inr (Or.inl rfl))
       · exact sameOp_single_complex φ 5 _ 4 (by omega) rfl rfl (Or.inr (Or.inr rfl))
       · exact sameOp_single_complex φ 5 _ 2 (by omega) rfl rfl (Or.inl rfl)) r hr
+
+/-! ### the multi-qubit `Pauli` gate itself, every number of targets (`Proof/PauliSound`) -/
+
+/-- **(2) a multi-qubit `Pauli` gate is the product of its single-qubit factors**, as complex
+    operators on the `2^n` block, for every number of targets -/
+theorem sameOp_pauli_complex (φ : ℕ → ℝ) (n : ℕ) (g : RGate) (h : pauliGateOK n g = true) :
+    SameOp zetaC (rhoC φ) n g :=
+  sameOp_of_ok zetaC_pow_eight n g h
+
+/-- **chain theorem for the gates themselves, UNCONDITIONAL**: for every list of well-formed
+    Pauli-kind gates (`pauliGateOK`: X, Y, Z on one target; `Pauli` with distinct targets `< n`, no
+    controls, ids in `{1,2,3}`) that the bookkeeping accepts, the tuple `(n, b', p')` it returns is
+    exactly the vector obtained by applying the gates' operators to `|b⟩`: `U e_b = i^(p'−p) e_{b'}`.
+    All `n`, all bit patterns, all counters, all lists. -/
+theorem pauli_track_gates_complex (φ : ℕ → ℝ) (s s' : CB) (gs : List RGate)
+    (h : track s gs = .ok s') (hwf : s.wf) (hg : ∀ g ∈ gs, pauliGateOK s.n g = true) :
+    ∀ r, r < 2 ^ s.n → opC φ (gs.map RGate.toGate) r s.bits
+      = if r = s'.bits then Complex.I ^ (s'.phase - s.phase) else 0 :=
+  pauli_track_gates_complex_partial φ s s' gs h hwf
+    (fun g hgm => sameOp_pauli_complex φ s.n g (hg g hgm))
+
+/-- the 5-qubit chain with its 3-target `Pauli` gate as a GATE: `|10101⟩ ↦ i³·|10010⟩` -/
+example (φ : ℕ → ℝ) (r : ℕ) (hr : r < 2 ^ 5) :
+    opC φ (chain.map RGate.toGate) r 0b10101 = if r = 0b10010 then Complex.I ^ (3 : ℤ) else 0 :=
+  pauli_track_gates_complex φ ⟨5, 0b10101, 7⟩ ⟨5, 0b10010, 10⟩ chain chain_track (by decide)
+    (by decide +kernel) r hr
 
 end QV.Props.C16Lift
